@@ -42,6 +42,7 @@ type AssertFail struct {
 }
 
 type Exec struct {
+	marshalled []Value
 	gshadow map[*ssa.Global]*Cell
 	eng          *Engine
 	h            *HarnessRun
